@@ -27,8 +27,8 @@ PROPS = {
         note='TLC bounds: 2-3 keys x 2 values, 5-10 steps, prune interval 1-3; trees of the mechanism model need no AVL '
              'rotation (<=3 keys) - rotations are covered by the recorded 12-key histories only. Parents of a reorganisation '
              'are retained states (reorg depth < prune interval); prune runs use cur <= tip. The store\'s background run is '
-             'awaited after each commit (hook), so only sequential interleavings of pruning and commits are covered. LevelDB '
-             'only: on memdb a prune run panics in dbm.MustWrite because memdb reports deleting an absent key. Known finding: '
+             'awaited after each commit (hook), so only sequential interleavings of pruning and commits are covered. LevelDB; '
+             'memdb only for linear histories that never write a one-leaf tree (memdb reports deleting an absent key and MustWrite panics). Known finding: '
              'index entries of an abandoned branch at heights that are never committed again (new branch has blocks without '
              'state change there) make pruning delete a live version.',
     ),
@@ -47,7 +47,7 @@ def _cfg(base, **kv):
     return t
 
 
-def preplay(ctx, binary, bs, opts, procs=4, count=True, label='', verdict=True, timeout=3000):
+def preplay(ctx, binary, bs, opts, procs=4, count=True, label='', verdict=True, timeout=3000, tolerate=None):
     """Replay with one behaviour at a time per process (the mavl db package has process globals) in
     `procs` processes; merges the summaries like ctx.replay. verdict=False: mismatches are returned,
     not reported (mechanism-model fidelity pass)."""
@@ -67,6 +67,8 @@ def preplay(ctx, binary, bs, opts, procs=4, count=True, label='', verdict=True, 
         if rc == 124:
             raise vlib.Broken('replay timeout (%ds)' % timeout)
         if not os.path.exists(outp):
+            if tolerate and tolerate in out:
+                return dict(died=out[-300:])
             raise vlib.Broken('replay driver died rc=%d:\n%s' % (rc, out[-4000:]))
         s = json.load(open(outp))
         if s.get('errors'):
@@ -76,7 +78,7 @@ def preplay(ctx, binary, bs, opts, procs=4, count=True, label='', verdict=True, 
     t0 = time.time()
     with concurrent.futures.ThreadPoolExecutor(max_workers=procs) as ex:
         sums = list(ex.map(one, range(procs)))
-    tot = dict(behaviours=0, steps=0, compared=0, nontrivial=0, mismatches=[], samples=[])
+    tot = dict(behaviours=0, steps=0, compared=0, nontrivial=0, mismatches=[], samples=[], died=[s['died'] for s in sums if 'died' in s])
     for s in sums:
         for k in ('behaviours', 'steps', 'compared', 'nontrivial'):
             tot[k] += s.get(k, 0)
@@ -141,7 +143,7 @@ def run(ctx):
     ctx.assumptions += ['SHA-256 / LevelDB trusted', 'reorganisation parents are retained states; prune runs at cur <= tip',
                         'background pruning awaited before the next call (sequential interleavings only)',
                         'TLC bounds: NK<=3 (no AVL rotation in the mechanism model), NV=2, <=10 steps; rotations only in recorded 12-key histories',
-                        'memdb backend not exercised (a prune run panics there in MustWrite: memdb reports deleting an absent key)']
+                        'memdb backend only with linear histories whose first commit writes >= 2 keys (memdb reports deleting an absent key, so a pruning batch deleting one un-prefixed leaf twice and the cleanup batch of a re-commit panic in dbm.MustWrite)']
     stage = ctx.stage()
     rd = lambda f: open(os.path.join(stage, f)).read()
     b = vlib.build(DRIVER)
@@ -203,6 +205,17 @@ def run(ctx):
         ctx.write_cfg(stage, 'Prune_Gen_small.cfg', _cfg(gen, Heights='MCHeightsSmall12', MaxSteps=12))
         bs = ctx.tlc_sim('Prune_MC', 'Prune_Gen_small.cfg', num=n, depth=13, stage=stage, seed=ctx.seed * 10 + 7, timeout=3600)
         preplay(ctx, b, bs, dict(view='ref', db='leveldb', ph=2, api='set', salt=1), procs=4, label='gen-small')
+
+    # memdb leg: linear histories whose first commit writes >= 2 keys (see memdbProbe in the driver; a re-commit
+    # at a used height also panics on memdb: its cleanup batch ends with the delete of an absent index key)
+    ctx.write_cfg(stage, 'Prune_Gen_mem.cfg', _cfg(gen, PruneH=2, Reorgs='FALSE'))
+    mb = ctx.tlc_sim('Prune_MC', 'Prune_Gen_mem.cfg', num=n // 2, depth=11, stage=stage, seed=ctx.seed * 10 + 9, timeout=3600)
+    mb = [x for x in mb if sum(1 for v in x['steps'][0].get('ws', []) if v) >= 2]
+    if mb:
+        s = preplay(ctx, b, mb, dict(view='ref', db='mem', ph=2, api='set'), procs=2, label='gen-memdb', tolerate='batch write err')
+        ctx.extra['memdb_leg'] = dict(behaviours=s['behaviours'], process_died_in_MustWrite=len(s['died']))
+        if s['died']:
+            ctx.notes.append('memdb leg: %d replay process(es) died in dbm.MustWrite (memdb reports deleting an absent key): %s' % (len(s['died']), s['died'][0][-160:]))
 
     # binding self-test: one predicted read flipped must make the replayer disagree
     bad = json.loads(json.dumps(bs[0]))
